@@ -81,3 +81,10 @@ REG["C11"] = {
                    "min/max rows are compared with the true extrema of the written bytes, the real validator must accept the output."),
     "level_note": _NOTE + " Cantera's numerical value of a property is outside the model (uninterpreted symbol).",
 }
+
+REG["C17"] = {
+    "technique": "TLC model checking of Chk2plt.tla (sequential per-state-file tasks over three independently laid out data subsets, offset-sorted box map, all completion orders; refinement of ConvertSpec) + replay into the real chk2plt on synthetic PeleLMeX checkpoints; symbols for ghost stripping / flooring interpreted from the generated ghosted arrays; real Taster with box coordinates; audit hook for writes into the checkpoint",
+    "level_text": ("Independent layouts of state / gradp / I_R (<=3 boxes over <=3 files, every disk order), 1-2 levels, all 8 flag sets, every completion order are model-checked and replayed on anisotropic "
+                   "domains with 1..3 ghost cells and both species sources; every written cell is compared with the checkpoint's interior value (exact; 1e-14 relative for floored mass fractions)."),
+    "level_note": _NOTE + " The synthetic checkpoint writer follows the format of test_assets/example_chk_3d.",
+}
